@@ -9,7 +9,7 @@ driver's state; `reset` empties it.
                scalar components (a tensor has several)
       its    = `,`-separated iterations as given by the caller
 Source: the block of variable v at iteration i, level l, restart R is the
-number ((v*4096 + i)*2 + l)*8 + R (v = 0 for the time), `it` datasets hold i.
+number ((v*4096 + i)*16 + l)*8 + R (v = 0 for the time), `it` datasets hold i.
 
 Output: `ok <rows> # <store>`; rows `;`-separated `it:R:name=val,name=val`
 (`-` = None); store entries ` `-separated `R/it/name/rl=val` in dictionary
@@ -23,7 +23,7 @@ def srcNat (k : DKey) : Nat :=
     | .var v => v
     | .t => 0
     | .it => 0
-  ((v * 4096 + k.it) * 2 + k.rl) * 8 + k.restart
+  ((v * 4096 + k.it) * 16 + k.rl) * 8 + k.restart
 
 def nameStr : DName → String
   | .var v => s!"v{v}"
